@@ -455,6 +455,10 @@ func init() {
 			} else {
 				cfg.Steps = r.Range(50, 200)
 			}
+			if r.Bool(0.3) {
+				cfg.StaleForger = true
+				cfg.Steps += 40
+			}
 			return cfg
 		},
 		run: func(c *Cluster, spec *runSpec) {
@@ -464,8 +468,13 @@ func init() {
 				if len(hs) == 0 {
 					return nil
 				}
+				if c.cfg.StaleForger && 2*c.stepNo > c.cfg.Steps {
+					// the forger keeps quiet for the second half of the run (see staleHeadScenario)
+					return nil
+				}
 				return &Step{Op: "byz", Kind: "forge", A: hs[c.gen.Intn(len(hs))].idx, N: c.gen.Intn(len(forgeOps)), B: c.gen.Intn(2)}
 			}
+			c.finalHook = c.staleHeadScenario
 			clusterRun(c, spec)
 		},
 	}
@@ -687,4 +696,125 @@ func (c *Cluster) byzSigStep(s *Step) {
 		}
 	}
 	c.hostile = false
+}
+
+// staleHeadScenario (C07, end of every run): the events of the run are fed to
+// a fresh hashgraph whose in-memory cache is smaller than the number of events
+// created since the forger's latest valid event. That event is then still the
+// head of the forger's chain in the participant index, but no longer in the
+// event cache. Events of the forger on top of it that re-use an index it
+// already used (same as the head's, lower, zero) must be refused and leave the
+// forger's chain as it is - however the check of the self-parent copes with an
+// event it cannot read. (A single instance fed sequentially: deterministic also
+// below the cache sizes a gossiping node supports.)
+func (c *Cluster) staleHeadScenario() {
+	byz := c.byzNode()
+	if byz == nil || abortRun.Load() {
+		return
+	}
+	chain := c.dag.byCI[byz.pubHex]
+	if len(chain) == 0 || len(c.dag.forks) > 0 {
+		return
+	}
+	headIdx := -1
+	for i := range chain {
+		if i > headIdx {
+			headIdx = i
+		}
+	}
+	head := chain[headIdx]
+	after := len(c.dag.order) - c.dag.events[head].Seq - 1
+	if after < 25 {
+		c.stats.probe("c07-stale-head-too-few-later-events")
+		return
+	}
+	cache := after - 5
+	if cache > 120 {
+		cache = 120
+	}
+	in := c.newInstance("stale-head", "inmem", cache)
+	defer in.close()
+	for _, de := range c.dag.order {
+		progress.Add(1)
+		// (insertions that fail because an ancestor was evicted are simply skipped)
+		in.h.InsertEventAndRunConsensus(eventFromRecord(de), true)
+	}
+	store := in.h.Store
+	if last, err := store.LastEventFrom(byz.pubHex); err != nil || last != head {
+		c.stats.probe("c07-stale-head-precondition-not-met")
+		return
+	}
+	if _, err := store.GetEvent(head); err == nil {
+		c.stats.probe("c07-stale-head-precondition-not-met")
+		return
+	}
+	// an other-parent the instance can read
+	var other *hg.Event
+	for _, n := range c.nodes {
+		if n == byz {
+			continue
+		}
+		if h, err := store.LastEventFrom(n.pubHex); err == nil && h != "" {
+			if ev, err := store.GetEvent(h); err == nil {
+				other = ev
+				break
+			}
+		}
+	}
+	if other == nil {
+		c.stats.probe("c07-stale-head-precondition-not-met")
+		return
+	}
+	listingBefore, _ := store.ParticipantEvents(byz.pubHex, -1)
+	tried := map[int]bool{}
+	for k, idx := range []int{headIdx, headIdx - 1, 0, headIdx, 0} {
+		if idx < 0 || (tried[idx] && k < 3) {
+			continue
+		}
+		tried[idx] = true
+		wire := k < 3
+		ev := newEvent(byz, idx, head, other.Hex(), [][]byte{[]byte(fmt.Sprintf("stale-%d", k))}, nil, nil, int64(946684800+k))
+		signEvent(ev, byz)
+		var err error
+		c.hostile = true
+		if wire {
+			we := hg.WireEvent{Signature: ev.Signature}
+			we.Body.Transactions = ev.Body.Transactions
+			we.Body.Index = idx
+			we.Body.Timestamp = ev.Body.Timestamp
+			we.Body.CreatorID = byz.id
+			we.Body.SelfParentIndex = headIdx
+			we.Body.OtherParentCreatorID = c.byPub[other.Creator()].id
+			we.Body.OtherParentIndex = other.Index()
+			var rev *hg.Event
+			rev, err = in.h.ReadWireInfo(we)
+			if err == nil {
+				err = in.h.InsertEventAndRunConsensus(rev, false)
+			}
+		} else {
+			cp := &hg.Event{}
+			cloneJSON(ev, cp)
+			err = in.h.InsertEventAndRunConsensus(cp, true)
+		}
+		c.hostile = false
+		c.stats.probe("c07-stale-head-attempt")
+		form := "full form"
+		if wire {
+			form = "wire form"
+		}
+		why := fmt.Sprintf("index %d on top of a self-parent of index %d (the creator's latest event, evicted from the event cache of %d entries)", idx, headIdx, cache)
+		if err == nil {
+			c.violate("C07", "admission", "inadmissible-event-admitted:stale-head", "an instance admitted an event of the forger with %s, %s", why, form)
+			return
+		}
+		if last, _ := store.LastEventFrom(byz.pubHex); last != head {
+			c.violate("C07", "rejection-leaves-state", "rejected-event-changed-state:stale-head", "an instance refused an event of the forger with %s (%s: %v) but the forger's latest event changed from %s to %s", why, form, err, short(head), short(last))
+			return
+		}
+		listingAfter, _ := store.ParticipantEvents(byz.pubHex, -1)
+		if !sameList(listingBefore, listingAfter) {
+			c.violate("C07", "rejection-leaves-state", "rejected-event-changed-state:stale-head", "an instance refused an event of the forger with %s (%s: %v) but the listing of the forger's events changed (%d -> %d entries)", why, form, err, len(listingBefore), len(listingAfter))
+			return
+		}
+	}
 }
